@@ -174,7 +174,9 @@ class ExprMixin:
             return sym.coerce(a, INT).z == sym.coerce(b, INT).z
         if ta == tb:
             if isinstance(ta, TDict):
-                raise EngineError("== on dicts")
+                # the same model value: same key order, same membership, same values (stronger than Python's ==, which
+                # ignores order; used only between a dict and itself / its recorded copy)
+                return z3.And(a.extra["keys"] == b.extra["keys"], a.extra["has"] == b.extra["has"], a.extra["val"] == b.extra["val"])
             return a.z == b.z
         if isinstance(ta, TRef) and isinstance(tb, TRef):
             return a.z == b.z
@@ -669,6 +671,10 @@ class ExprMixin:
         return [r for s, vals in self.ev_list(operands, st) for r in fin(s, vals)]
 
     def compare(self, op, a: SV, b: SV, st, node):
+        if isinstance(op, (ast.Eq, ast.NotEq)) and isinstance(a.t, TDict) and isinstance(b.t, TDict) and not st.spec:
+            # the model's dict equality (same key ORDER too) is stronger than Python's: fine in a specification, not for
+            # deciding a branch of the program
+            raise EngineError("== on dicts in program code")
         if isinstance(op, ast.Eq):
             return self.eq(a, b)
         if isinstance(op, ast.NotEq):
@@ -836,7 +842,14 @@ class ExprMixin:
             b = self.unbox(vals[0], s)
             vals = [b] + list(vals[1:])
             if isinstance(b.t, TRef) or (isinstance(b.t, TOpt) and isinstance(b.t.inner, TRef)):
-                # obj[key] on an object: its class's __getitem__ (a contracted repo method or an assumed external one)
+                # obj[key] on an object: its class's __getitem__ (a contracted repo method or an assumed external one);
+                # an assumed contract may be given per literal key: ext:<Class>.__getitem__[<key>]  (TypedDict-like objects)
+                bt = b.t.inner if isinstance(b.t, TOpt) else b.t
+                k0 = vals[1]
+                if k0.const is not None and isinstance(k0.const.v, str):
+                    keyed = self.reg.funs.get(f"ext:{bt.cls}.__getitem__[{k0.const.v}]")
+                    if keyed is not None:
+                        return self.call_contract(keyed, [b, k0], {}, s, e, params=keyed.types.get("__params__"))
                 rs = []
                 for s2, m in self.getattr(b, "__getitem__", s, e):
                     rs.extend(self.apply(m, [vals[1]], {}, s2, e))
